@@ -132,3 +132,104 @@ pub fn agent_fetch(candidates: bool, reply_template: &str) -> String {
         go!(request_installed)
     }
 }
+
+/// C18: the reply future of `Session::close()` owns the session. Dropping it - never polled, or polled once so
+/// that it is the one reading from the transport - while other requests are outstanding must leave those
+/// requests able to complete with their own replies. Every n in 1..=3, every subset of waiters polled once
+/// before the close, both ways of abandoning the close future, every order of reply arrival.
+pub fn close_future_dropped(report: &mut crate::ev::Report) -> u64 {
+    use netconf::message::rpc::operation::{Builder as _, Get};
+    use std::{future::Future, task::{Context, Poll}};
+    fn noop_waker() -> std::task::Waker {
+        use std::task::{RawWaker, RawWakerVTable, Waker};
+        fn clone(_: *const ()) -> RawWaker { RawWaker::new(std::ptr::null(), &VTABLE) }
+        fn noop(_: *const ()) {}
+        static VTABLE: RawWakerVTable = RawWakerVTable::new(clone, noop, noop, noop);
+        // SAFETY: the vtable functions do nothing and the data pointer is never dereferenced
+        unsafe { Waker::from_raw(RawWaker::new(std::ptr::null(), &VTABLE)) }
+    }
+    fn perms(n: usize) -> Vec<Vec<usize>> {
+        if n == 0 { return vec![vec![]]; }
+        let mut out = Vec::new();
+        for p in perms(n - 1) {
+            for i in 0..=p.len() { let mut q = p.clone(); q.insert(i, n - 1); out.push(q); }
+        }
+        out
+    }
+    let mut cases = 0u64;
+    for n in 1..=3usize {
+        for polled_mask in 0..(1u32 << n) {
+            for poll_close in [false, true] {
+                for order in perms(n) {
+                    cases += 1;
+                    let desc = format!("{n} request(s) outstanding, waiters polled once before the close: {:?}, close future {}, replies arrive in order {order:?}", (0..n).filter(|k| polled_mask & (1 << k) != 0).collect::<Vec<_>>(), if poll_close { "polled once then dropped" } else { "dropped unpolled" });
+                    let case = serde_json::json!({"requests": n, "polled_before_close": polled_mask, "close_future_polled_once": poll_close, "reply_order": order});
+                    let mut env = match establish(&std_hello(&[])) {
+                        Ok(e) => e,
+                        Err(e) => { report.violation("C18:close-dropped:establish", &e, case); continue; }
+                    };
+                    let mut futs = Vec::new();
+                    let mut ok = true;
+                    for _ in 0..n {
+                        match drive(env.session.rpc::<Get, _>(|b| b.finish()), 10_000) {
+                            Some(Ok(f)) => futs.push(Box::pin(f)),
+                            _ => ok = false,
+                        }
+                    }
+                    if !ok { report.violation("C18:close-dropped:send", "could not send the requests", case); continue; }
+                    let ids: Vec<String> = (0..n).map(|k| mem::message_id_of(&env.wire.sent_text(k + 1).unwrap_or_default()).unwrap_or_default()).collect();
+                    let waker = noop_waker();
+                    let mut cx = Context::from_waker(&waker);
+                    let mut early: Vec<Option<String>> = vec![None; n];
+                    for k in 0..n {
+                        if polled_mask & (1 << k) != 0 {
+                            if let Poll::Ready(r) = futs[k].as_mut().poll(&mut cx) {
+                                early[k] = Some(format!("{:?}", r.map(|o| o.to_string()).map_err(|e| format!("{e:?}"))));
+                            }
+                        }
+                    }
+                    let wire = env.wire.clone();
+                    match drive(env.session.close(), 10_000) {
+                        Some(Ok(close_fut)) => {
+                            let mut close_fut = Box::pin(close_fut);
+                            if poll_close {
+                                _ = close_fut.as_mut().poll(&mut cx);
+                            }
+                            drop(close_fut);
+                        }
+                        other => { report.violation("C18:close-dropped:close-not-sent", &format!("{desc}: close() did not return its reply future: {:?}", other.map(|r| r.map(|_| ()).map_err(|e| format!("{e:?}")))), case); continue; }
+                    }
+                    for &k in &order {
+                        wire.deliver(format!("<rpc-reply message-id=\"{}\" xmlns=\"{}\"><data><tag>own-{k}</tag></data></rpc-reply>{}", ids[k], crate::junos::BASE_NS, mem::MARKER));
+                    }
+                    // the survivors are polled together (a waiter that holds the receive lock makes progress only
+                    // when it is polled itself)
+                    let mut got: Vec<Option<String>> = early.clone();
+                    for _round in 0..10_000 {
+                        let mut pending = false;
+                        for k in 0..n {
+                            if got[k].is_none() {
+                                match futs[k].as_mut().poll(&mut cx) {
+                                    Poll::Ready(r) => got[k] = Some(format!("{:?}", r.map(|o| o.to_string()).map_err(|e| format!("{e:?}")))),
+                                    Poll::Pending => pending = true,
+                                }
+                            }
+                        }
+                        if !pending {
+                            break;
+                        }
+                    }
+                    for k in 0..n {
+                        let want = format!("Ok(\"<tag>own-{k}</tag>\")");
+                        match &got[k] {
+                            None => report.violation("C18:close-dropped:survivor-never-completes", &format!("{desc}: request {k} never completes although its reply arrived"), case.clone()),
+                            Some(g) if *g != want => report.violation("C18:close-dropped:survivor-does-not-get-its-reply", &format!("{desc}: request {k} resolved to {g}, expected {want}"), case.clone()),
+                            _ => {}
+                        }
+                    }
+                }
+            }
+        }
+    }
+    cases
+}
